@@ -3,9 +3,8 @@
 \* the IR the real parser built for a selector TEXT (projected by harness/irproj.py) must equal the projection of
 \* Compile(ParseText(text)).  No AST is handed over by the harness: everything between the characters and the IR is the spec's.
 \*   event = [id, text (Seq(Nat)), ir (projected real IR), pool (Seq(Str) attribute value pool)]
-EXTENDS Trace_Ir
-P == INSTANCE ParseSel
-ExpectedP(e) == ProjList(e.pool, Compile(P!ParseText(e.text)))
+EXTENDS Trace_Ir, IrState
+ExpectedP(e) == ProjList(e.pool, CompileText(e.text))      \* IrState: state pseudo-classes expanded from their definition texts
 InitP == l = 0
 NextP == /\ l < Len(Tr)
          /\ l' = l + 1
